@@ -424,6 +424,22 @@ func solve(query string, timeoutS int, all bool, useCvc5 bool) (SolveResult, err
 					cancel()
 					return res, nil
 				}
+				// cross-check window: the other solvers get a few more seconds to agree or disagree,
+				// not their full budget (a solver that only times out adds nothing)
+				grace := 3 * time.Second
+				if d := time.Duration(o.t*2) * time.Second; d > grace {
+					grace = d
+				}
+				if grace > 15*time.Second {
+					grace = 15 * time.Second
+				}
+				go func() {
+					select {
+					case <-time.After(grace):
+						cancel()
+					case <-ctx.Done():
+					}
+				}()
 			}
 		} else if !decided {
 			res.Output = o.out
